@@ -863,6 +863,29 @@ func (e *Exec) step(t []string) {
 	case "aidx":
 		fld, _ := strconv.Atoi(t[1])
 		e.emit("r %s", e.assignIndex(fld))
+	case "flush1", "flush1c":
+		// Flush(o) / FlushAndCommit(o) with an object holding the last accepted value
+		o := e.rec(parseFlat(t[1]))
+		if t[0] == "flush1" {
+			e.emit("r %s", cls(db.Flush(o)))
+		} else {
+			e.emit("r %s", cls(db.FlushAndCommit(o)))
+		}
+	case "expects":
+		// expects <sid> <n> <zero_ok>
+		sid, _ := strconv.Atoi(t[1])
+		n, _ := strconv.Atoi(t[2])
+		sr := e.searches[sid]
+		if t[3] == "1" {
+			sr.s.ExpectsZeroOrN(n)
+		} else {
+			sr.s.Expects(n)
+		}
+		if err := sr.s.Err(); err != nil {
+			e.emit("r %s 0", rd(cls(err)))
+		} else {
+			e.emit("r ok %d", sr.s.Len())
+		}
 	case "commit":
 		e.emit("r %s", cls(db.Commit(e.of())))
 	case "flushall":
